@@ -7,7 +7,7 @@ the offender represented by something; co-located snapshots must each be complet
 """
 import random
 
-from simkit import common, hostgen, snapcheck
+from simkit import common, hostgen, snapcheck, world, host, refmodel
 from simkit.common import V
 from . import snapcommon
 
@@ -33,8 +33,39 @@ TECHNIQUE = "deterministic simulation: fault injection at host-object seam, refe
 POSITIONS = ("local", "local", "inlist", "dictval", "attr", "watch", "deepnest", "self")
 
 
+FRESH = ("{'a': i, 'b': [i]}", "[i, 'x', {'k': i}]", "P(i, 'b')", "(i, 'two')", "'text%d' % i", "i * 1000003",
+         "{'req': {'i': i, 'tid': 0}, 'i': i}", "{'i': i, 'tid': 1}", "[i, i + 1]", "None", "Q(i, [1], {'z': i})")
+CAP_SRC = '''
+def build(i, req, log):
+    tmp = {'req': req, 'i': i}
+    pad = [i, i + 1]
+    %(drop)s
+    res = %(value)s
+    log.append(('value', res))
+    %(end)s  #L:end
+
+def tmain(tid, n, out, log):
+    for i in range(n):
+        try:
+            build(i, {'i': i, 'tid': tid}, log)
+            out.append(('ok', i))
+        except BaseException as e:
+            log.append(('raised', e))
+            out.append(('raised', i, type(e).__name__))
+'''
+
+
 def generate(seed, tier):
     r = random.Random(seed)
+    if r.random() < 0.2:
+        # arm "capture": the awkward (or plain but freshly built) value is what the function returns or raises; a
+        # method_capture / line_capture tracepoint collects at the start and completes with the value at the end, after
+        # the function has dropped objects the first half of the snapshot looked at
+        pool = r.choice((ZOO, hostgen.EXOTIC, FRESH, FRESH))
+        return {"arm": "capture", "value": r.choice(pool), "friendly": pool is not ZOO,
+                "outcome": r.choice(("return", "return", "raise")), "tps": r.choice((["mcap"], ["lcap"], ["mcap", "lcap"])),
+                "drop": r.choice(("del req", "tmp = None", "pass", "del req; tmp = None; pad = None")),
+                "reps": r.choice((1, 2, 3)), "knobs": common.draw_knobs(r, stall_p=0.0)}
     off = r.choice(ZOO)
     pos = r.choice(POSITIONS)
     ntp = r.choice((1, 1, 2, 3))
@@ -84,6 +115,15 @@ def _opts(scenario):
 
 
 def shrink_candidates(s):
+    if s.get("arm") == "capture":
+        if s["reps"] > 1:
+            yield dict(s, reps=s["reps"] - 1)
+        if len(s["tps"]) > 1:
+            yield dict(s, tps=s["tps"][:1])
+            yield dict(s, tps=s["tps"][1:])
+        if s["drop"] != "pass":
+            yield dict(s, drop="pass")
+        return
     for cand in common.drop_one(s["tps"]):
         if cand:
             yield dict(s, tps=cand)
@@ -95,7 +135,110 @@ def shrink_candidates(s):
         yield dict(s, prog=p)
 
 
+def _capture(s, ch):
+    viol = []
+    info = {"n": 0}
+    tag = "capture-%s:%s" % (s["outcome"], s["value"][:48])
+
+    def main(k):
+        from deep.api.tracepoint.trigger import LocationAction, LineLocation, FunctionLocation, Trigger, Location
+        p = hostgen.start_program("simcap")
+        end = "return res" if s["outcome"] == "return" else "raise HostErr('boom', res)"
+        for ln in (CAP_SRC % {"drop": s["drop"], "value": s["value"], "end": end}).strip("\n").split("\n"):
+            p.lines.append(ln)
+        p.finish()
+        end_line = next(i + 1 for i, ln in enumerate(p.source.split("\n")) if "#L:end" in ln)
+        w = world.World(k, python_plugin=False)
+        rec = host.Recorder(k).attach(w)
+        rec.install()
+        w.start()
+        k.settle()
+        trig = []
+        for kind in s["tps"]:
+            conf = {"fire_count": "-1", "fire_period": "0", "watches": []}
+            if kind == "mcap":
+                conf["stage"] = "method_capture"
+                loc = FunctionLocation(p.basename, "build", Location.Position.CAPTURE)
+            else:
+                conf["stage"] = "line_capture"
+                loc = LineLocation(p.basename, end_line, Location.Position.CAPTURE)
+            trig.append(Trigger(loc, [LocationAction(kind, None, conf, LocationAction.ActionType.Snapshot)]))
+        w.handler.new_config(trig)
+        g = p.load()
+        if s["drop"] != "pass":
+            k.fault("object_dropped_mid_invocation")
+        out, log = [], []
+        host.run_threads(k, [lambda: g["tmain"](1, s["reps"], out, log)])
+        common.wait_delivery(k, w, 30)
+        for r_ in rec.raised:
+            viol.append(V("trace-call-raised:%s" % r_[5], str(r_)))
+        # what each invocation really produced, from the host's own log
+        real = []
+        for ent in log:
+            if ent[0] == "value":
+                real.append(["return", ent[1]])
+            else:
+                real[-1] = ["raise", ent[1]]
+        wire_by_id = {sn.ID.hex(): sn for (_, _, sn, _) in w.service.snapshots}
+        graph = refmodel.RefGraph()
+        for kind in s["tps"]:
+            mine = [es for (_, _, es) in w.pushed if es.tracepoint.id == kind]
+            if len(mine) != len(real):
+                viol.append(V("no-snapshot:%s" % tag, "%s: %d snapshots for %d invocations; agent errors %s" % (
+                    kind, len(mine), len(real), [r_ for r_ in w.logs.records if r_[0] == "ERROR"][:2] if hasattr(w, "logs") else "")))
+                continue
+            for (how, obj), es in zip(real, mine):
+                info["n"] += 1
+                wire = wire_by_id.get(format(es.id, "032x"))
+                if wire is None:
+                    viol.append(V("not-delivered:%s" % tag, "%s snapshot %s never reached the service" % (kind, format(es.id, "032x"))))
+                    continue
+                for iss in snapcheck.closure_issues(wire):
+                    viol.append(V("dangling-ref:%s" % tag, "%s: %r" % (kind, iss)))
+                caps = [w_ for w_ in wire.watches if w_.source == 3]
+                want_expr = "return" if how == "return" else "exception"
+                if len(caps) != 1 or caps[0].expression != want_expr:
+                    viol.append(V("capture-missing:%s" % tag, "%s: the invocation ended with a %s, captures on the wire: %s" % (
+                        kind, how, [(c_.expression, c_.error_result) for c_ in caps])))
+                    continue
+                c_ = caps[0]
+                if not c_.HasField("good_result") or c_.good_result.ID not in wire.var_lookup:
+                    viol.append(V("capture-dangling:%s" % tag, "%s: capture %r -> id %r, not in the delivered table" % (
+                        kind, c_.expression, c_.good_result.ID if c_.HasField("good_result") else None)))
+                    continue
+                root_id, root_obj = c_.good_result, obj
+                if how == "raise":
+                    # the captured value is the (type, value, traceback) triple of the event: judge the value
+                    kids = {ch_.name: ch_ for ch_ in wire.var_lookup[c_.good_result.ID].children}
+                    if "1" not in kids:
+                        viol.append(V("capture-lacks-exception-value:%s" % tag, "%s: children %s" % (kind, sorted(kids))))
+                        continue
+                    root_id = kids["1"]
+                res = snapcheck.walk(wire, [(root_id, graph.node(root_obj), "capture[%s]" % c_.expression)], graph,
+                                     string_limit=1024, collection_limit=10, strict_text=bool(s["friendly"]))
+                for iss in res.issues:
+                    if s["friendly"] or iss.code in ("dangling-ref", "phantom-child", "type-mismatch"):
+                        viol.append(V("capture-%s:%s" % (iss.code, tag), "%s: %r" % (kind, iss)))
+                names = [v_.name for v_ in wire.frames[0].variables] if wire.frames else []
+                if "i" not in names or "log" not in names:
+                    viol.append(V("bystander-variable-missing:%s" % tag, "%s: frame variables %s" % (kind, names)))
+        if [x[0] for x in out] != [("ok" if s["outcome"] == "return" else "raised")] * s["reps"]:
+            viol.append(V("host-output-differs:%s" % tag, str(out)))
+        k.probe("captures_checked", info["n"])
+        w.close()
+
+    k = common.run_in_kernel(ch, s["knobs"], main)
+    seen, vs = set(), []
+    for v in viol:
+        if v["sig"] not in seen:
+            seen.add(v["sig"])
+            vs.append(v)
+    return common.result(k, vs, key=repr((s["value"], s["outcome"], s["tps"], s["drop"])) if info["n"] else None)
+
+
 def execute(scenario, ch):
+    if scenario.get("arm") == "capture":
+        return _capture(scenario, ch)
     sc = dict(scenario)
     sc["prog"] = dict(scenario["prog"])
     pre, extra, post = _opts(scenario)
